@@ -142,6 +142,7 @@ type Exec struct {
 	probes    []Probe
 	ghostNames []string
 	bounded   int // >0: bounded concretisation mode (loop unroll bound)
+	underBinder int
 	pureCalls map[string]bool
 	usedContracts map[string]bool
 	stats     struct{ instrs, forks, calls int }
@@ -293,6 +294,9 @@ func (x *Exec) allocRef(st *State) string {
 // assumeWF adds the typing facts Go guarantees for a value read from
 // symbolic memory or received as input.
 func (x *Exec) assumeWF(st *State, v Value) {
+	if x.underBinder > 0 || st == nil {
+		return // terms may mention bound variables: no path-condition facts
+	}
 	switch v.K {
 	case KInt:
 		if _, ok := isIntLit(v.S); ok {
